@@ -125,8 +125,8 @@ def _attr_source(t: Term):
     if t[0] != "attr":
         return None
     x = t[1]
-    while x[0] in ("mut", "copyof"):
-        x = x[1]
+    while x[0] in ("mut", "copyof", "accum"):
+        x = x[2] if x[0] == "accum" else x[1]
     return (x, t[2])
 
 
